@@ -584,6 +584,9 @@ func scenarios() {
 		case "closeearly":
 			s.Body = scCloseEarly(f[1])
 			s.End = func(x *vs.Exec) string { return strings.Join(x.Obs, "\n") }
+		case "vbusy":
+			s.Body = scVisitorBusy(f[1])
+			s.End = func(x *vs.Exec) string { return strings.Join(x.Obs, "\n") }
 		case "ilisten":
 			s.Body = scIListen
 			s.End = func(x *vs.Exec) string { return strings.Join(x.Obs, "\n") }
@@ -662,6 +665,64 @@ func scCloseEarly(when string) func(x *vs.Exec) {
 		time.Sleep(5 * time.Second)
 		vs.SetInterest(false)
 		vs.Observe("closeearly/%s done, sessions=%d", when, w.Srv.LiveCount())
+	}
+}
+
+// vbusy: a visitor of each kind whose bind port is held by another program when the client starts it, retries it and is
+// told to drop it. A visitor that cannot start must cost the client nothing but that visitor.
+func scVisitorBusy(kind string) func(x *vs.Exec) {
+	return func(x *vs.Exec) {
+		w := cw.New(x, cw.Opt{HeartbeatInterval: -1, NoPoolRequests: true, Proxies: []v1.ProxyConfigurer{cw.TCPProxy("a", 8000, 9000)}})
+		if !vs.BlockFor("login-seen", 30*time.Second, func() bool { return w.Srv.LiveCount() > 0 }) {
+			vs.Observe("vbusy: no login")
+			return
+		}
+		network := "tcp"
+		var vc v1.VisitorConfigurer
+		base := v1.VisitorBaseConfig{Name: "v", Type: kind, ServerName: "secret", SecretKey: "k", BindAddr: "127.0.0.1", BindPort: 6000}
+		switch kind {
+		case "stcp":
+			vc = &v1.STCPVisitorConfig{VisitorBaseConfig: base}
+		case "sudp":
+			vc = &v1.SUDPVisitorConfig{VisitorBaseConfig: base}
+			network = "udp"
+		case "xtcp":
+			vc = &v1.XTCPVisitorConfig{VisitorBaseConfig: base, Protocol: "quic"}
+		}
+		vc.Complete(w.Cfg)
+		bound := func() bool {
+			l := w.H.BoundTCP()
+			if network == "udp" {
+				l = w.H.BoundUDP()
+			}
+			for _, p := range l {
+				if p == 6000 {
+					return true
+				}
+			}
+			return false
+		}
+		w.H.Squat(network, 6000, true)
+		vs.SetInterest(true)
+		_ = w.Svc.UpdateAllConfigurer([]v1.ProxyConfigurer{cw.TCPProxy("a", 8000, 9000)}, []v1.VisitorConfigurer{vc})
+		time.Sleep(25 * time.Second) // the client retries visitors that are not running every 10 s
+		vs.SetInterest(false)
+		w.H.Squat(network, 6000, false)
+		vs.BlockFor("visitor-up", 40*time.Second, bound)
+		if !bound() {
+			vs.Fail("vbusy/%s: the visitor's bind port was busy for 25 s; 40 s after it became free the visitor is still not listening", kind)
+		}
+		_ = w.Svc.UpdateAllConfigurer([]v1.ProxyConfigurer{cw.TCPProxy("a", 8000, 9000)}, nil)
+		time.Sleep(5 * time.Second)
+		if bound() {
+			vs.Fail("vbusy/%s: the visitor removed by a reload still listens", kind)
+		}
+		if w.Srv.LiveCount() != 1 {
+			vs.Fail("vbusy/%s: the client's session did not survive its visitor's trouble (live sessions %d)", kind, w.Srv.LiveCount())
+		}
+		w.Svc.Close()
+		time.Sleep(5 * time.Second)
+		vs.Observe("vbusy/%s done", kind)
 	}
 }
 
@@ -810,6 +871,9 @@ func main() {
 		c.ExploreBoth("lane|"+v, 3, 0.25)
 	}
 	c.ExploreBoth("ilisten", 3, 0.5)
+	for _, k := range []string{"stcp", "sudp", "xtcp"} {
+		c.ExploreBoth("vbusy|"+k, 1, 0.3)
+	}
 	for _, v := range []string{"atonce", "loggedin"} {
 		c.ExploreBoth("closeearly|"+v, 2, 0.5)
 	}
